@@ -10,19 +10,118 @@ import (
 	"sync"
 	"sync/atomic"
 
+	"github.com/DrmagicE/gmqtt"
 	"github.com/DrmagicE/gmqtt/config"
 	"github.com/DrmagicE/gmqtt/persistence"
+	"github.com/DrmagicE/gmqtt/persistence/queue"
 	sessstore "github.com/DrmagicE/gmqtt/persistence/session"
+	"github.com/DrmagicE/gmqtt/persistence/subscription"
+	"github.com/DrmagicE/gmqtt/persistence/unack"
 	"github.com/DrmagicE/gmqtt/server"
+
+	"verifharness/internal/drv"
 )
 
 var (
 	faultyOnce   sync.Once
 	failRemove   int32
+	failSet      int32
+	failAt       int32 // `api failat k`: the k-th wrapped persistence call from now fails without being performed (0 = disarmed)
 	errInjectedS = errors.New("verif: injected session store failure")
 )
 
+// hit counts one wrapped call; true = this is the call that has to fail
+func hit() bool {
+	for {
+		v := atomic.LoadInt32(&failAt)
+		if v <= 0 {
+			return false
+		}
+		if atomic.CompareAndSwapInt32(&failAt, v, v-1) {
+			return v == 1
+		}
+	}
+}
+
 type faultyPE struct{ server.Persistence }
+
+type faultyQueue struct{ queue.Store }
+
+func (q *faultyQueue) Init(o *queue.InitOptions) error {
+	if hit() {
+		return errInjectedS
+	}
+	return q.Store.Init(o)
+}
+
+func (q *faultyQueue) Clean() error {
+	if hit() {
+		return errInjectedS
+	}
+	return q.Store.Clean()
+}
+
+type faultyUnack struct{ unack.Store }
+
+func (u *faultyUnack) Init(cleanStart bool) error {
+	if hit() {
+		return errInjectedS
+	}
+	return u.Store.Init(cleanStart)
+}
+
+type faultySubs struct{ subscription.Store }
+
+func (s *faultySubs) UnsubscribeAll(clientID string) error {
+	if hit() {
+		return errInjectedS
+	}
+	return s.Store.UnsubscribeAll(clientID)
+}
+
+func (p *faultyPE) NewQueueStore(c config.Config, n queue.Notifier, clientID string) (queue.Store, error) {
+	if hit() {
+		return nil, errInjectedS
+	}
+	q, err := p.Persistence.NewQueueStore(c, n, clientID)
+	if err != nil {
+		return nil, err
+	}
+	return &faultyQueue{q}, nil
+}
+
+func (p *faultyPE) NewUnackStore(c config.Config, clientID string) (unack.Store, error) {
+	if hit() {
+		return nil, errInjectedS
+	}
+	u, err := p.Persistence.NewUnackStore(c, clientID)
+	if err != nil {
+		return nil, err
+	}
+	return &faultyUnack{u}, nil
+}
+
+func (p *faultyPE) NewSubscriptionStore(c config.Config) (subscription.Store, error) {
+	st, err := p.Persistence.NewSubscriptionStore(c)
+	if err != nil {
+		return nil, err
+	}
+	return &faultySubs{st}, nil
+}
+
+func (s *faultySessions) SetSessionExpiry(clientID string, expiry uint32) error {
+	if hit() {
+		return errInjectedS
+	}
+	return s.Store.SetSessionExpiry(clientID, expiry)
+}
+
+func (s *faultySessions) Get(clientID string) (*gmqtt.Session, error) {
+	if hit() {
+		return nil, errInjectedS
+	}
+	return s.Store.Get(clientID)
+}
 
 type faultySessions struct{ sessstore.Store }
 
@@ -32,6 +131,14 @@ func (s *faultySessions) Remove(clientID string) error {
 		return errInjectedS
 	}
 	return err
+}
+
+// Set: `api failset 1` makes it fail WITHOUT storing (a write the backend rejected)
+func (s *faultySessions) Set(sess *gmqtt.Session) error {
+	if atomic.LoadInt32(&failSet) == 1 || hit() {
+		return errInjectedS
+	}
+	return s.Store.Set(sess)
 }
 
 func (p *faultyPE) NewSessionStore(c config.Config) (sessstore.Store, error) {
@@ -46,6 +153,8 @@ func (p *faultyPE) NewSessionStore(c config.Config) (sessstore.Store, error) {
 func init() {
 	optionHooks = append(optionHooks, func(d *brokerDrv, m map[string]string) []server.Options {
 		atomic.StoreInt32(&failRemove, 0)
+		atomic.StoreInt32(&failSet, 0)
+		atomic.StoreInt32(&failAt, 0)
 		if m["pe"] != "faulty" {
 			return nil
 		}
@@ -60,6 +169,22 @@ func init() {
 		})
 		return []server.Options{server.VerifWithPersistenceType("veriffaulty")}
 	})
+	apiOps["failat"] = func(d *brokerDrv, pos []string, m map[string]string) string {
+		k := 0
+		if len(pos) > 1 {
+			k = drv.Atoi(pos[1])
+		}
+		atomic.StoreInt32(&failAt, int32(k))
+		return d.collect("")
+	}
+	apiOps["failset"] = func(d *brokerDrv, pos []string, m map[string]string) string {
+		v := int32(0)
+		if len(pos) > 1 && pos[1] == "1" {
+			v = 1
+		}
+		atomic.StoreInt32(&failSet, v)
+		return d.collect("")
+	}
 	apiOps["failremove"] = func(d *brokerDrv, pos []string, m map[string]string) string {
 		v := int32(0)
 		if len(pos) > 1 && pos[1] == "1" {
